@@ -28,9 +28,15 @@ def gen_cases(seed, tier):
             add("no", [("concat", ",".join(perm))])
         add("two", [("concat", rng.choice(["m,1", "1,m"]))])
         # one-file container embedded at the end of another file
-        for tok in ["g:1:1:r", "g:64:2:r", "g:100:3:t", "g:8192:4:r", "x:6a626b43000000000002", "x:6a626b6d0102030400020000"]:
+        for tok in ["g:1:1:r", "g:64:2:r", "g:100:3:t", "g:8192:4:r"]:
             if tier == "quick" and rng.random() < 0.5:
                 continue
+            add("one", [("prefix", tok)])
+        # prefixes that look like the start of a jubako header without being a valid header block
+        # (right magic and version; a stale/truncated header copy): always included
+        for tok in ["x:6a626b43000000000002", "x:6a626b6d0102030400020000",
+                    "x:6a626b63" + "01020304" + "0002" + "11" * 16 + "00" * 6 + "40e2010000000000" + "10e2010000000000" + "00" * 12 + "deadbeef",
+                    "x:6a626b43" + "00" * 4 + "0002" + "22" * 40]:
             add("one", [("prefix", tok)])
     return cases
 
